@@ -4,7 +4,8 @@
 P="$1"; shift
 cd /repo || exit 2
 git diff --quiet || { echo "repo dirty"; exit 2; }
-git apply "$P" || { echo "patch does not apply"; exit 2; }
+git apply "$P" 2>/dev/null || patch -p1 --fuzz=3 -s < "$P" || { echo "patch does not apply"; git checkout -- .; exit 2; }
+find . -name "*.orig" -newer "$P" -delete 2>/dev/null; git status --short | grep -v "^ M" | head -3
 cd /verif
 ./check "$@" > /verif/work/seedtest.out 2> /verif/work/seedtest.err
 rc=$?
